@@ -63,3 +63,42 @@ prop("C06",
           "distinct = distinct (bytes, modulus); non-trivial = at least 12 bytes",
      assumptions=["well-formed streams come from the harness's own encoder (knode.encode)", "NaN payloads of type f/d values are compared as raw bits"],
      note=GPMF_NOTE)
+
+prop("C07",
+     axioms="reals",
+     design_ref="DESIGN.md section 5 C07",
+     technique="Rocq proof (scale values, scale consumed by next sibling only, sample layout/count, rejection) + in-Coq correspondence on synthesised sensor streams",
+     text="Theorems about the model of scale.go/floats.go/element.format and the sensor parsers: value i = raw[i]/scale[i mod n]; a pending "
+          "scale is consumed by the very next element and parser-less elements with nothing pending stay raw; sample k field f is value "
+          "w*k+f with count values/w, Z,X,Y order; non-multiples are rejected.  Tied to the code by comparing every decoded value bit for "
+          "bit on generated streams (scaled/unscaled siblings, all scalable types, faces of the four layouts, GPSP/GPSF incl. wrong types).",
+     rule="one case = one DEVC with 1-2 streams of 1-4 groups (optional SCAL of length 1-6 + sensor/plain element of any scalable type with 0-8 samples, "
+          "unscaled sibling after it, FACE with TYPE of the 4 layouts incl. undersized/unknown/missing, GPSP/GPSF incl. wrong types, 8% non-multiples); "
+          "distinct = distinct byte streams; non-trivial = at least 12 bytes",
+     assumptions=["float division/conversion is Flocq's binary64 (validated bit-for-bit on every case)"],
+     note=GPMF_NOTE)
+
+prop("C09",
+     axioms="reals",
+     design_ref="DESIGN.md section 5 C09",
+     technique="Rocq proof that the reader model never reaches a panic site nor exhausts its fuel, for all byte strings + correspondence on hostile inputs (reader) and hostile MP4 sample tables (decoder) under recover/watchdog",
+     text="C09_reader_total: for every byte string the Gallina port of Reader.read (all panic sites explicit, loop on fuel) returns Ok or Err.  "
+          "The proof found a real crash (nested FACE, D23, fixed).  The model is tied to the code on random bytes, mutated streams and captures; a panic "
+          "or timeout of the implementation is a violation whatever the model says.",
+     rule="one case = one byte string (named cases of the statement; random bytes; bit flips, truncations, header-field overwrites, splices on generated "
+          "streams/forests and on the first DEVC of the raw captures); distinct = distinct bytes; non-trivial = at least 12 bytes",
+     assumptions=["'never hangs' is proved for the code's own loops (fuel = input length + 1); a blocking io.Reader is outside the model and only watched by a 10 s watchdog",
+                  "the MP4 decoder half (sample tables) is covered with C08's model"],
+     note=GPMF_NOTE)
+
+prop("C16",
+     axioms="reals",
+     design_ref="DESIGN.md section 5 C16",
+     technique="Rocq proof about the metadata frames (own stream first, then enclosing containers, root excluded; last write wins) + in-Coq correspondence of every sensor element's metadata map",
+     text="Theorems: a sensor element exposes for each key the value of its own stream else of the nearest enclosing container, restating replaces exactly "
+          "that key, non-metadata elements never write into their container.  Tied to the code by comparing the (sorted) metadata map of every sensor "
+          "element on generated payloads with 1-3 devices, 1-4 streams, random key subsets/orders, restated keys, late device keys, and several payloads per read.",
+     rule="one case = one payload (or the concatenation of 2-3 payloads in one read): 1-3 DEVC x 1-4 STRM x random subsets/orders of 11 metadata keys with "
+          "distinct values, sensors of 7 kinds, 35% restated key + second sensor, 15% late device key; distinct = distinct bytes; non-trivial = at least 12 bytes",
+     assumptions=["map iteration order is irrelevant: maps are compared as key-sorted lists"],
+     note=GPMF_NOTE)
